@@ -47,6 +47,8 @@ Why(e) ==
               THEN "C19:queued-request-not-delivered-exactly-once-after-the-handshake"
          ELSE IF Match(cfg) /\ \E m \in sub : Count(resp, m) + Count(nack, m) = 0 THEN "C19:queued-request-neither-answered-nor-reported"
          ELSE ""
+    \* (run by C10's check only: bad7 cases) a class-7 code is no CoAP-over-datagram code, DTLS included: Reset or ignored, never handled as signalling
+    [] e.e \in {"SrvSignal", "CliSignal"} -> "C10:class-7-code-on-a-dtls-session-handled-as-signalling-instead-of-reset-or-ignored"
     [] e.e = "Hang" -> "C19:endpoints-never-became-quiet"
     [] e.e = "Crash" -> "C19:run-aborted-or-sanitizer-report"
     [] OTHER -> ""
